@@ -41,6 +41,8 @@ ASSUMPTIONS = [
     "an interrupted dump run over an existing cache may leave either the old complete cache or "
     "no cache (both satisfy the statement)",
     "process crash (torn unflushed bytes) is explored but reported only under beyond_quantifier",
+    "Split decides about hoisting a filled Cache into a Source when it is constructed; histories "
+    "that drop the cache behind an already constructed Split object are not generated",
 ]
 FAULT_KINDS = ["read-error-EIO", "consumer-stop-close", "consumer-stop-drop", "raise-downstream",
                "raise-upstream-source", "raise-upstream-element", "drop_cache",
@@ -108,13 +110,18 @@ def gen_scenario(tape):
             # new object when one exists.
             if op.kind == "drop":
                 op.rebuild = False
+                if sc.form == "split":
+                    # Split decides about hoisting a filled Cache when it is constructed;
+                    # dropping the cache behind an already built Split is not generated
+                    have_object = False
             else:
                 op.rebuild = tape.chance(1, 3, "rebuild") or not have_object
             if op.rebuild:
                 cur_flags = list(op.recompute)
             else:
                 op.recompute = list(cur_flags)
-            have_object = True
+            if op.kind != "drop":
+                have_object = True
         if sc.form == "split":
             op.hoist = "none"
         op.k = 0
